@@ -557,6 +557,31 @@ pub enum ByteOp {
     Splice { other: u16, at: u16, from: u16 },
     Insert { pos: u16, bytes: Vec<u8> },
     Delete { pos: u16, len: u8 },
+    /// records: write the (unchanged) tag in a wider MessagePack form (uint8/16/32/64, int8/16/32/64,
+    /// array16/array32 wrapper), which moves the content away from offset SIZE
+    WidenTag(u8),
+}
+
+/// the header `91 <tag>` re-encoded in wider MessagePack form number `w` (0..10)
+pub fn widen_tag(b: &[u8], w: u8) -> Option<Vec<u8>> {
+    if b.len() < 2 || b[0] != 0x91 || b[1] > 0x7f {
+        return None;
+    }
+    let t = b[1];
+    let mut h: Vec<u8> = match w % 10 {
+        0 => vec![0x91, 0xcc, t],
+        1 => vec![0x91, 0xcd, 0, t],
+        2 => vec![0x91, 0xce, 0, 0, 0, t],
+        3 => vec![0x91, 0xcf, 0, 0, 0, 0, 0, 0, 0, t],
+        4 => vec![0x91, 0xd0, t],
+        5 => vec![0x91, 0xd1, 0, t],
+        6 => vec![0x91, 0xd2, 0, 0, 0, t],
+        7 => vec![0x91, 0xd3, 0, 0, 0, 0, 0, 0, 0, t],
+        8 => vec![0xdc, 0, 1, t],
+        _ => vec![0xdd, 0, 0, 0, 1, t],
+    };
+    h.extend_from_slice(&b[2..]);
+    Some(h)
 }
 
 #[derive(Clone, Debug, Serialize, Deserialize)]
@@ -577,6 +602,7 @@ fn byteop_strategy() -> BoxedStrategy<ByteOp> {
         2 => (any::<u16>(), any::<u16>(), any::<u16>()).prop_map(|(other, at, from)| ByteOp::Splice { other, at, from }),
         1 => (any::<u16>(), proptest::collection::vec(any::<u8>(), 1..6)).prop_map(|(pos, bytes)| ByteOp::Insert { pos, bytes }),
         1 => (any::<u16>(), 1u8..9).prop_map(|(pos, len)| ByteOp::Delete { pos, len }),
+        2 => (0u8..10).prop_map(ByteOp::WidenTag),
     ]
     .boxed()
 }
@@ -653,6 +679,13 @@ fn apply_op(target: Target, b: &mut Vec<u8>, op: &ByteOp) {
                 }
             }
         }
+        ByteOp::WidenTag(w) => {
+            if target == Target::Record {
+                if let Some(n) = widen_tag(b, *w) {
+                    *b = n;
+                }
+            }
+        }
         ByteOp::Splice { other, at, from } => {
             let p = small_pool();
             let same: Vec<&&PoolItem> = p.iter().filter(|x| x.target == target).collect();
@@ -691,6 +724,7 @@ fn op_name(op: &ByteOp) -> &'static str {
         ByteOp::Splice { .. } => "splice",
         ByteOp::Insert { .. } => "insert",
         ByteOp::Delete { .. } => "delete",
+        ByteOp::WidenTag(_) => "widen_tag",
     }
 }
 
@@ -845,6 +879,11 @@ fn golden_mutations(rep: &mut Report) {
                         }
                     }
                     if it.target == Target::Record {
+                        for w in 0u8..10 {
+                            if let Some(b) = widen_tag(&it.bytes, w) {
+                                run("widen_tag", b, false);
+                            }
+                        }
                         for tag in 8u16..=255 {
                             let mut b = it.bytes.clone();
                             b[1] = tag as u8;
@@ -870,7 +909,7 @@ fn golden_mutations(rep: &mut Report) {
     });
     let mut st = SectionStats {
         name: "golden_mutations".into(),
-        rule: format!("exhaustive over the {} goldens below 8 KiB: every truncation offset, {} bit flips per byte, every tag rewrite 8..=255 (records); same oracle as decode_bytes", items.len(), if thorough { 8 } else { 2 }),
+        rule: format!("exhaustive over the {} goldens below 8 KiB: every truncation offset, {} bit flips per byte, every tag rewrite 8..=255 and every wider MessagePack form of the tag (records); same oracle as decode_bytes", items.len(), if thorough { 8 } else { 2 }),
         exhaustive: true,
         ..Default::default()
     };
